@@ -217,6 +217,40 @@ def r10_iter_idioms(text):
     return text, cnt
 
 
+def r9_raw_parts(text):
+    """std::slice::from_raw_parts[_mut](p, n) -> verif_raw_parts[_mut](p, n); `unsafe extern "C"` / `extern "C"`
+    qualifiers are dropped (no run-time meaning for the verified text)."""
+    m, _ = mask(text)
+    cnt = 0
+    out = []
+    last = 0
+    for mo in re.finditer(r'(?:std::)?slice::from_raw_parts(_mut)?\b', m):
+        out.append(text[last:mo.start()])
+        out.append('verif_raw_parts' + (mo.group(1) or ''))
+        last = mo.end()
+        cnt += 1
+    out.append(text[last:])
+    text = ''.join(out)
+    # qualifiers: `unsafe extern "C" fn` (the ABI string is a literal, hence searched on the real text)
+    text2, c2 = re.subn(r'\b(?:unsafe\s+)?extern\s+"C"\s+fn\b', 'fn', text)
+    text3, c3 = re.subn(r'\bunsafe\s+fn\b', 'fn', text2)
+    return text3, cnt + c2 + c3
+
+
+def r17_full_range(text):
+    """`&E[..]` -> `E.as_slice()` for a place / call-chain expression E (same bytes, no copy)."""
+    cnt = 0
+    while True:
+        m, _ = mask(text)
+        mo = re.search(r'&\s*([\w\.\s\(\)]+?)\[\s*\.\.\s*\]', m)
+        if not mo:
+            break
+        recv = text[mo.start(1):mo.end(1)].rstrip()
+        text = text[:mo.start()] + recv + '.as_slice()' + text[mo.end():]
+        cnt += 1
+    return text, cnt
+
+
 def r11_prost_paths(text):
     m, _ = mask(text)
     cnt = 0
@@ -419,4 +453,12 @@ def apply_all(text, extra=()):
             text, c = r10_iter_idioms(text)
             if c:
                 log['R10'] = c
+        if name == 'R17':
+            text, c = r17_full_range(text)
+            if c:
+                log['R17'] = c
+        if name == 'R9':
+            text, c = r9_raw_parts(text)
+            if c:
+                log['R9'] = c
     return text, log
